@@ -302,6 +302,7 @@ func (cf *compactFlusher) StreamWriter() (table.StreamWriter, error) {
 	cf.streamWriter = &compactFlusherStreamWriter{
 		compactFlusher: cf,
 		StreamWriter:   sw,
+		builder:        cf.compactJob.state.builder,
 	}
 	return cf.streamWriter, nil
 }
@@ -363,10 +364,36 @@ func (cf *compactFlusher) Release() {
 type compactFlusherStreamWriter struct {
 	compactFlusher *compactFlusher
 	table.StreamWriter
+	builder table.Builder // builder which current stream writer is bound to
+	err     error
+}
+
+// Prepare binds the stream writer to current output file before preparing the key,
+// because previous output file maybe finished when it is big enough(callers cache the stream writer).
+func (cfsw *compactFlusherStreamWriter) Prepare(key uint32) {
+	if cfsw.err = cfsw.compactFlusher.beforeAdd(); cfsw.err != nil {
+		return
+	}
+	if builder := cfsw.compactFlusher.compactJob.state.builder; builder != cfsw.builder {
+		cfsw.builder = builder
+		cfsw.StreamWriter = builder.StreamWriter()
+	}
+	cfsw.StreamWriter.Prepare(key)
+}
+
+// Write writes data into current output file.
+func (cfsw *compactFlusherStreamWriter) Write(data []byte) (int, error) {
+	if cfsw.err != nil {
+		return 0, cfsw.err
+	}
+	return cfsw.StreamWriter.Write(data)
 }
 
 // Commit checks if build's file if it is big enough
 func (cfsw *compactFlusherStreamWriter) Commit() error {
+	if cfsw.err != nil {
+		return cfsw.err
+	}
 	// table's StreamWriter Commit won't raise error
 	_ = cfsw.StreamWriter.Commit()
 	return cfsw.compactFlusher.afterAdd()
